@@ -150,3 +150,132 @@ class TV(object):
 
     def __repr__(self):
         return "TV(%d)" % self.n
+
+
+class _Final(object):
+    """What a dying FV / FK does: call `action(obj)` (set by the scenario);
+    exceptions stay inside (a finalizer cannot propagate them anyway)."""
+    __slots__ = ("action", "fired", "busy", "notes")
+
+    def __init__(self):
+        self.action = None
+        self.fired = 0
+        self.busy = False
+        self.notes = []
+
+
+FINAL = _Final()
+
+
+def _finalize(obj):
+    f = FINAL
+    if f.action is None or f.busy:
+        return
+    f.busy = True
+    try:
+        f.fired += 1
+        f.action(obj)
+    except Exception:
+        pass
+    finally:
+        f.busy = False
+
+
+class FV(object):
+    """Finalizing value: a fresh object stored under one key and referenced
+    by nothing else, so it dies INSIDE the operation that drops it (replace,
+    delete, clear, eviction, __setstate__) -- and its __del__ calls back into
+    the simulator, which re-enters the container.  Ordered by .n."""
+    __slots__ = ("n",)
+    live = 0
+
+    def __new__(cls, n=0):
+        o = object.__new__(cls)
+        FV.live += 1
+        return o
+
+    def __init__(self, n=0):
+        self.n = n
+
+    def __del__(self):
+        FV.live -= 1
+        _finalize(self)
+
+    def __lt__(self, o):
+        return self.n < o.n
+
+    def __gt__(self, o):
+        return self.n > o.n
+
+    def __le__(self, o):
+        return self.n <= o.n
+
+    def __ge__(self, o):
+        return self.n >= o.n
+
+    def __eq__(self, o):
+        return type(o) is FV and self.n == o.n
+
+    def __ne__(self, o):
+        return not (type(o) is FV and self.n == o.n)
+
+    def __hash__(self):
+        return hash(("FV", self.n))
+
+    def __reduce__(self):
+        return (FV, (self.n,))
+
+    def __repr__(self):
+        return "FV(%r)" % (self.n,)
+
+
+class FK(object):
+    """Finalizing key: like FV, usable next to HK keys (ordered by .n; an FK
+    gets a fractional n so that it never equals a universe key)."""
+    __slots__ = ("n",)
+    live = 0
+
+    def __new__(cls, n=0):
+        o = object.__new__(cls)
+        FK.live += 1
+        return o
+
+    def __init__(self, n=0):
+        self.n = n
+
+    def __del__(self):
+        FK.live -= 1
+        _finalize(self)
+
+    def __lt__(self, o):
+        _tick()
+        return self.n < o.n
+
+    def __gt__(self, o):
+        _tick()
+        return self.n > o.n
+
+    def __le__(self, o):
+        _tick()
+        return self.n <= o.n
+
+    def __ge__(self, o):
+        _tick()
+        return self.n >= o.n
+
+    def __eq__(self, o):
+        _tick()
+        return type(o) is FK and self.n == o.n
+
+    def __ne__(self, o):
+        _tick()
+        return not (type(o) is FK and self.n == o.n)
+
+    def __hash__(self):
+        return hash(("FK", self.n))
+
+    def __reduce__(self):
+        return (FK, (self.n,))
+
+    def __repr__(self):
+        return "FK(%r)" % (self.n,)
